@@ -183,6 +183,28 @@ def run_case_suite(prop, verdict, acc, name, module, constants, wjson, seed, own
     return stats, rep
 
 
+def run_apalache(prop, verdict, module, n_laws, what, timeout=1500):
+    """Symbolic check (apalache-mc, --length=0: the invariant `Laws` on every initial state, i.e. for all values the typed Init admits).
+    Returns True iff every law holds; a refuted law is a violation; anything else is a tool error."""
+    apa_dir = outdir('apalache', prop); vlib.clean_dir(apa_dir)
+    try:
+        ra = subprocess.run(['apalache-mc', 'check', '--init=Init', '--next=Next', '--inv=Laws', '--length=0', '--out-dir=' + apa_dir, os.path.join(SPECS, module)],
+                            cwd=apa_dir, stdout=subprocess.PIPE, stderr=subprocess.STDOUT, text=True, timeout=timeout)
+    except subprocess.TimeoutExpired:
+        raise ToolError('apalache timed out on %s' % module)
+    open(os.path.join(outdir('logs'), '%s-apalache.log' % prop), 'w').write(ra.stdout)
+    ok = 'EXITCODE: OK' in ra.stdout and ra.stdout.count(' holds') >= n_laws
+    if not ok:
+        if 'violated' in ra.stdout:
+            pth = os.path.join(outdir('replay', prop + '-laws'), 'apalache.txt')
+            open(pth, 'w').write(ra.stdout[-6000:])
+            verdict.add({'kind': 'tlc', 'key': 'apalache:laws', 'detail': '%s (Apalache counterexample)' % what, 'replay': pth})
+        else:
+            raise ToolError('apalache failed on %s: %s' % (module, ra.stdout[-800:]))
+    shutil.rmtree(apa_dir, ignore_errors=True)
+    return ok
+
+
 def check_C05(tier, seed):
     t0 = time.time()
     build('dev')
@@ -237,6 +259,8 @@ def check_C05(tier, seed):
         v.add({'kind': 'tlc', 'key': 'tlc:laws', 'detail': 'a law of the data set comparison is false on the finite domain', 'replay': p})
     # Binding B: recorded random histories of the real instance validated against TraceInstance.tla
     run_inst_traces('C05', v, acc, ['pst', 'ppi', 'gm', 'steps', 'tp', 'path', 'clk'], tier, seed, variants=('A', 'B', 'D'))
+    # the same laws for ALL integer attribute values: Apalache on the very text of BmcaCompare (symbolic, no enumeration)
+    apa_ok = run_apalache('C05', v, 'ApaBmca.tla', 5, 'a law of the data set comparison is false for some integer values')
     return finish('C05', tier, seed, 'model_checking', v, acc, t0,
                   'TLC enumerates every case of the configured lattice (own clockClass x prior port states x per-port qualified candidates '
                   '(sender below/above the receiver, grandmaster record differing from the own data set in the first deciding attribute of '
@@ -245,7 +269,9 @@ def check_C05(tier, seed):
                   COMMON_ASSUME + ['module Bmca is a faithful transcription of IEEE 1588-2019 Figures 33-35 (with the deviations statime documents)',
                                    'candidates are qualified by two consecutive Announces each'],
                   extra_cov={'comparison_laws_checked': ['Antisymmetric', 'DifferentGmStrict', 'TiesAreErrors', 'BetterTransitive', 'NoCycle', 'D0Total'],
-                             'comparison_laws_hold': laws_ok})
+                             'comparison_laws_hold': laws_ok,
+                             'comparison_laws_unbounded': {'tool': 'apalache-mc --length=0 on specs/ApaBmca.tla (all integer attribute values)',
+                                                           'laws': ['Antisymmetric', 'DifferentGmStrict', 'TiesAreErrors', 'BetterTransitiveGm', 'BetterTransitive'], 'hold': apa_ok}})
 
 
 
@@ -358,6 +384,8 @@ def check_C09(tier, seed):
                        w, 60, seed, owns, ['C09'], invariants=inv, simulate=(200, 40))
     # Binding B: recorded random histories of the real instance validated against TraceInstance.tla
     run_inst_traces('C09', v, acc, ['flt'], tier, seed, variants=('A', 'D'))
+    # network level: real masters and real slaves exchanging their own frames; every measurement must be exact
+    run_netsync('C09', v, acc, tier, seed)
     return finish('C09', tier, seed, 'model_checking', v, acc, t0,
                   EDGE_RULE + '; measurements are symbolic expression trees over named timestamps/corrections in the specification and are evaluated '
                   'with per-seed concrete 128-bit values (sub-nanosecond parts, second boundaries, both signs of corrections and asymmetry) '
@@ -398,6 +426,8 @@ def check_C10(tier, seed):
         v.add({'kind': 'predicate', 'key': 'C10/seqwrap', 'detail': item['detail'], 'replay': item['replay']})
     # Binding B: recorded random histories of the real instance validated against TraceInstance.tla
     run_inst_traces('C10', v, acc, ['out.Sync', 'out.FollowUp', 'out.DelayResp', 'out.PdelayResp', 'out.PdelayRespFup', 'out.DelayReq', 'out.PdelayReq', 'out.len', 'snap.nseq'], tier, seed, variants=('A', 'D'))
+    # network level: what the real master ports emit is what real slave ports measure from; every measurement must be exact
+    run_netsync('C10', v, acc, tier, seed)
     return finish('C10', tier, seed, 'model_checking', v, acc, t0,
                   EDGE_RULE + '; transmit/receive timestamps and correction fields are named symbols in the specification, concretised per seed over the 80-bit '
                   'range with sub-nanosecond fractions; "timestamp + correction" of an emitted frame must equal the symbolic sum to 2^-16 ns',
@@ -623,7 +653,7 @@ def check_C15(tier, seed):
     for item in ov.get('violations', []):
         v.add({'kind': 'predicate', 'key': 'C15/fwdlag', 'detail': item['detail'], 'replay': item['replay']})
     # Binding B: recorded random histories of the real instance validated against TraceInstance.tla
-    run_inst_traces('C15', v, acc, ['out.F', 'out.Announce.tlvs', 'path'], tier, seed, variants=('B',))
+    run_inst_traces('C15', v, acc, ['out.F', 'out.Announce.tlvs', 'path'], tier, seed, variants=('B', 'F'))
     return finish('C15', tier, seed, 'model_checking', v, acc, t0,
                   EDGE_RULE + '; TLVs are abstract [type, value length, tag] records with integer room accounting; the replay uses the real TlvForwarder',
                   COMMON_ASSUME + ['the host forwards ForwardTLV actions to every port\'s receiver and never empties a receiver (UDP port task of the daemon); '
@@ -655,6 +685,16 @@ def check_C03(tier, seed):
     for name, c, w, d in suites:
         for prof in ('dev', 'release'):
             run_inst_suite('C03', v, acc, '%s-%s' % (name, prof), 'MCPort', c, w, d, seed, owns, ['C03'], profile=prof)
+    # boundary clock: forwarded TLVs whose sizes lie around the room of the Announce, with and without the own PATH_TRACE TLV (module MCFwd)
+    fbase = dict(INST_CONST)
+    fbase.update({'Fwd': True, 'WithOther': True})
+    def fc(lists, paths, **kw):
+        d = dict(fbase)
+        d.update({'PCfg': ('<-', 'PCfg_2'), 'ListSet': tla_set(lists), 'PathSet': tla_set(paths)})
+        d.update(kw)
+        return d
+    run_inst_suite('C03', v, acc, 'C03-fwd-sizes', 'MCFwd', fc([1, 2, 3, 4, 5, 6, 7, 8, 9], [0]), world([e2e(), e2e()], fwd=True), 4 if q else 5, seed, owns, ['C03'])
+    run_inst_suite('C03', v, acc, 'C03-fwd-sizes-path', 'MCFwd', fc([0, 1, 2, 3, 4, 5, 8], [1, 2, 3], PTrace=True), w2, 4 if q else 5, seed, owns, ['C03'])
     # randomised call orders with boundary values, mutated and random frames up to 2048 octets, six port configurations
     for prof in ('dev', 'release'):
         rb = run_driver('robust', ['--seed', str(seed), '--runs', '3000' if q else '60000', '--len', '200'], 'C03-robust-' + prof, profile=prof, timeout=3000)
@@ -667,7 +707,7 @@ def check_C03(tier, seed):
                 continue        # C17's alarm
             v.add({'kind': 'predicate', 'key': 'C03/robust', 'detail': item['detail'], 'replay': item['replay']})
     # Binding B: recorded random histories of the real instance validated against TraceInstance.tla
-    run_inst_traces('C03', v, acc, ['panic'], tier, seed, variants=('A', 'B', 'D', 'M'))
+    run_inst_traces('C03', v, acc, ['panic'], tier, seed, variants=('A', 'B', 'D', 'M', 'F'))
     return finish('C03', tier, seed, 'exploration', v, acc, t0,
                   'model-derived: TLC enumerates (reachable abstract state, boundary-class input) edges - correction fields {min, max, +-1 ns, +-1 unit, 0}, timestamps '
                   '{0, 1 ns, sub-ns only, second carry, 2^48 s - 1, 2^63 ns - 1}, stepsRemoved {254, 255, 65535}, path trace lengths {1, 127, 128, 129, 200}, TLV sizes around '
@@ -836,7 +876,7 @@ def check_C18(tier, seed):
     return finish('C18', tier, seed, 'model_checking', v, acc, t0,
                   'every edge of the bounded graph of Overlay.tla (sequences of set_frequency / step_clock / advance up to the depth bound) is replayed on a real OverlayClock over a mock '
                   'underlying clock at three start points of the PTP range; after every operation reading, returned time and time_from_underlying are compared with the exact integer '
-                  'value (tolerance 2 ns + 2^-30 of the elapsed time); plus simulated behaviours of length 50 and random sequences with fractional ppm; every sequence is distinct',
+                  'value (tolerance 2 ns + 2^-40 of the elapsed time); plus simulated behaviours of length 50 and random sequences with fractional ppm; every sequence is distinct',
                   ['TLC and SANY', 'the exact integer model in the harness equals the TLA+ model (cross-checked on every edge)',
                    'the underlying clock is a mock whose time the harness sets'])
 
@@ -872,12 +912,16 @@ def check_C16(tier, seed):
             v.add({'kind': 'tlc', 'key': 'tlc:' + ','.join(stats['violated']), 'detail': 'TLC: a law of the limb reference is false on the lattice', 'replay': pth})
         for item in rep.get('violations', []):
             v.add({'kind': 'mismatch', 'key': 'C16/' + prof, 'detail': item['detail'], 'replay': item['replay']})
+    # the reference itself: its limb arithmetic (module TimeLimbs, the text TLC evaluates above) equals integer arithmetic for ALL
+    # well-formed magnitudes - Apalache, symbolic
+    apa_ok = run_apalache('C16', v, 'ApaTime.tla', 3, 'the limb arithmetic of the reference differs from integer arithmetic for some magnitudes')
+    acc.suites.append({'suite': 'C16-reference-exact', 'tool': 'apalache-mc --length=0 on specs/ApaTime.tla', 'laws': ['AddExact', 'LessExact', 'SubExact'], 'hold': apa_ok})
     return finish('C16', tier, seed, 'exploration', v, acc, t0,
                   'TLC evaluates the limb reference (TimeArith.tla) on every vector of the lattice {0, 1, max-1, max}^5 x signed durations (second / nanosecond / fraction '
                   'carries, sign changes, extremes of the PTP range) and checks its algebraic laws; each vector is applied to the real Time/Duration operators in the '
                   'overflow-checking and the release profile, with operands rebuilt by independent 128-bit integer arithmetic; wire conversions are observed through a real '
                   'port; the rest of the range is sampled per seed; all i8 log intervals from 2^-64 to 2^63 s are enumerated; every vector is distinct',
-                  ['TLC and SANY', 'three-way agreement is required: limb reference = harness integer arithmetic = statime',
+                  ['TLC and SANY; Apalache and Z3 for the exactness of the limb reference', 'three-way agreement is required: limb reference = harness integer arithmetic = statime',
                    'Time + Duration outside [0, 2^96 ns) has no exact value: the check demands that it does not wrap (statime clamps after fix 3a7f5bf)',
                    'Duration -> TimeInterval is checked for |d| < 2^46 ns (beyond that the 64-bit interval cannot hold it)',
                    'log intervals above 2^63 s exceed core::time::Duration / the 96-bit range and are not checked'],
@@ -1194,6 +1238,7 @@ INST_TRACE_VARIANTS = {
     'B': {'PCfg': ('<-', 'TI_PCfg_B'), 'PTrace': True},      # path trace on, port 2 master-only
     'D': {'PCfg': ('<-', 'TI_PCfg_D'), 'PTrace': False},     # acceptable master list on port 1, P2P port 2, master-only port 3
     'M': {'PCfg': ('<-', 'TI_PCfg_A'), 'PTrace': False},     # as A, Announces from fourteen distinct sources (the list holds eight)
+    'F': {'PCfg': ('<-', 'TI_PCfg_A'), 'PTrace': True, 'Fwd': True},   # boundary clock: path trace and the real TlvForwarder between the ports
 }
 INST_TRACE_INVARIANTS = ['OneSlave', 'MasterOnlyNeverSlave', 'ParentQualified']
 
@@ -1519,6 +1564,39 @@ def net_world(name, **kw):
     d = {'nodes': NETS[name]['nodes'], 'topo': NETS[name]['wtopo'], 'timeout': 2, 'cut0': NETS[name]['wcut0']}
     d.update(kw)
     return d
+
+
+def run_netsync(prop, verdict, acc, tier, seed):
+    """Binding B at network level for the measurement path: free-running simulations of N real instances that exchange their own
+    Sync / Follow_Up / Delay_Req / Delay_Resp frames (every node's clock off by a fixed theta, every segment with a fixed symmetric
+    delay); every measurement a recording filter receives is logged and TLC (TraceNet.tla, MeasOK) accepts the run iff each one sits
+    on a slave port and is exactly theta(slave) - theta(parent) / the segment's delay."""
+    q = tier == 'quick'
+    td = outdir('traces', prop + '-netsync'); vlib.clean_dir(td)
+    nets = [('chain3', {'kind': 'silence', 'n': 3}), ('shared3', {'kind': 'quality', 'n': 1}), ('ring3', {'kind': 'cut', 'seg': 0}), ('chain4', {'kind': 'silence', 'n': 2}),
+            ('parallel', {'kind': 'cut', 'seg': 1}), ('ring4', {'kind': 'quality', 'n': 4})]
+    runs = meas = 0
+    for i, (name, fault) in enumerate(nets[:2] if q else nets):
+        for sd in range(1 if q else 5):
+            w = net_world(name, timeout=3, quiet_rounds=16, fault_at_s=70, fault=fault, max_delay_ms=[1, 50, 400][(i + sd) % 3], sync=True)
+            wp = os.path.join(td, 'sync-%s-%d.json' % (name, sd))
+            json.dump(w, open(wp, 'w'))
+            tr = os.path.join(td, 'sync-%s-%d.ndjson' % (name, sd))
+            r = subprocess.run([binpath('netsim'), '--free', '--cfg', wp, '--seed', str(seed * 100 + sd), '--trace', tr, '--horizon', '160'], cwd=ROOT, stdout=subprocess.PIPE, text=True, timeout=600)
+            if r.returncode != 0:
+                raise ToolError('netsim --free failed on %s' % name)
+            meas += json.loads(r.stdout).get('measurements', 0)
+            ok, msg, stats = validate_trace('TraceNet.tla', tr, '%s-netsync-%s-%d' % (prop, name, sd))
+            runs += 1
+            acc.states += stats['distinct']; acc.transitions += stats['generated']
+            if not ok:
+                keep = os.path.join(outdir('replay', prop + '-netsync'), 'rejected-%s-%d.ndjson' % (name, sd))
+                shutil.copy(tr, keep)
+                verdict.add({'kind': 'trace', 'key': prop + '/netsync', 'detail': 'network of real instances exchanging their own Sync / Delay frames (%s, seed %d): %s' % (name, sd, msg), 'replay': keep})
+    acc.events += meas
+    acc.suites.append({'suite': prop + '-netsync', 'driver': 'harness/src/bin/netsim.rs --free (sync)', 'validated_by': 'specs/TraceNet.tla (MeasOK)', 'runs': runs, 'measurements_checked': meas})
+    if meas == 0:
+        raise ToolError('netsync: no measurement was taken (the simulation is vacuous)')
 
 
 def check_C01(tier, seed):
